@@ -231,9 +231,15 @@ class Rig:
 
     # -- operations ---------------------------------------------------------
     def set(self, urn, lc, la, rs, fl, c, h, u):
+        # through the public interface of BoboDeviceManager only (its representation is not the harness's business)
         d = self.t._devices[urn]
-        d._last_comms, d._last_attempt, d._resets, d._flag_reset = lc, la, rs, bool(fl)
-        d._stash_completed, d._stash_halted, d._stash_updated = [rec(x) for x in c], [rec(x) for x in h], [rec(x) for x in u]
+        if rs < d.resets or lc < 0 or la < 0:
+            raise ValueError('state not reachable through the public interface: resets=%r last_comms=%r last_attempt=%r' % (rs, lc, la))
+        while d.resets < rs:
+            d.clear_last()
+        d.last_comms, d.last_attempt, d.flag_reset = lc, la, bool(fl)
+        d.clear_stash()
+        d.append_stash([rec(x) for x in c], [rec(x) for x in h], [rec(x) for x in u])
 
     def push(self, c, h, u):
         self.t.on_decider_update([rec(x) for x in c], [rec(x) for x in h], [rec(x) for x in u], local=True)
@@ -272,8 +278,9 @@ class Rig:
     def fields(self):
         out = {}
         for urn, d in self.t._devices.items():
-            out[urn] = {'lc': d._last_comms, 'la': d._last_attempt, 'rs': d._resets, 'fr': d._flag_reset,
-                        'c': ids(d._stash_completed), 'h': ids(d._stash_halted), 'u': ids(d._stash_updated)}
+            sc, sh, su = d.stash()
+            out[urn] = {'lc': d.last_comms, 'la': d.last_attempt, 'rs': d.resets, 'fr': d.flag_reset,
+                        'c': ids(sc), 'h': ids(sh), 'u': ids(su)}
         return out
 
     def queue_ids(self):
